@@ -145,7 +145,23 @@ func patchOverlay(repo, patch string) (map[string]string, bool, string) {
 	for f := range files {
 		b, err := os.ReadFile(filepath.Join(dir, f))
 		if err != nil {
-			return nil, false, "patch deletes " + f + ": not expressible as an overlay"
+			// the patch deletes the file: an overlay cannot remove it, but it can empty it
+			orig, err2 := os.ReadFile(filepath.Join(repo, f))
+			if err2 != nil || !strings.HasSuffix(f, ".go") {
+				return nil, false, "patch deletes " + f + ": not expressible as an overlay"
+			}
+			pkg := ""
+			for _, ln := range strings.Split(string(orig), "\n") {
+				if strings.HasPrefix(ln, "package ") {
+					pkg = strings.Fields(ln)[1]
+					break
+				}
+			}
+			if pkg == "" {
+				return nil, false, "patch deletes " + f + ": package clause not found"
+			}
+			content[filepath.Join(repo, f)] = "package " + pkg + "\n"
+			continue
 		}
 		content[filepath.Join(repo, f)] = string(b)
 	}
@@ -165,6 +181,12 @@ func Run(cfg Config) Summary {
 		if m.Property == cfg.Property {
 			ms = append(ms, m)
 		}
+	}
+	// behaviour-preserving refactorings (stored patches) must leave every property's check silent
+	bens, _ := filepath.Glob(filepath.Join(cfg.Verif, "benign", "*", "patch.diff"))
+	sort.Strings(bens)
+	for _, b := range bens {
+		ms = append(ms, Mutant{Name: "refactoring-" + filepath.Base(filepath.Dir(b)), Property: cfg.Property, Kind: "benign", Patch: b})
 	}
 	self, err := os.Executable()
 	if err != nil {
@@ -225,6 +247,10 @@ func Run(cfg Config) Summary {
 		m := r.m
 		if r.skipped {
 			sum.Skipped = append(sum.Skipped, m.Name+": "+r.out)
+			if m.Patch != "" {
+				// a stored seeded change that no longer applies must be refreshed, not silently dropped
+				sum.Failures = append(sum.Failures, Failure{m.Name, "stored seeded change is stale: " + r.out})
+			}
 			continue
 		}
 		got := parseViolated(r.out)
